@@ -61,6 +61,7 @@ class PartResult:
         self.failures = []                # [{obligation, function, message, file, line, verus, input, what}]
         self.notes = []
         self.canary = None
+        self.stability = None
 
 
 # ------------------------------------------------------------------------------------------------
@@ -264,6 +265,17 @@ class ProofPart:
                 r.reason = 'trusted-base grew: %s' % extra
             if r.status == 'ok':
                 self._canary(r, want)
+            if r.status == 'ok' and tier == 'thorough':
+                # stability: the same file under two other solver seeds; a proof that flips is reported as unstable (exit 2), not as a violation
+                seeds = [int(os.environ.get('VERIF_SEED', '0') or 0) * 2 + 7, 91]
+                r.stability = []
+                for sd in seeds:
+                    res2 = verus_run.run(path, rlimit=rl, extra=list(getattr(u, 'VERUS_EXTRA', ())) + ['--smt-option', 'smt.random_seed=%d' % sd])
+                    r.stability.append({'seed': sd, 'status': res2['status'], 'verified': res2.get('verified'), 'smt_ms': res2.get('smt_ms')})
+                    r.smt_ms += res2.get('smt_ms', 0)
+                    if res2['status'] != 'verified':
+                        r.status = 'undecided'
+                        r.reason = 'unstable proof: verified with the default seed but %s with smt.random_seed=%d' % (res2['status'], sd)
         elif status == 'failed':
             for d in res.get('error_diags', []):
                 loc = asm.locate(d['byte_start']) if d['byte_start'] is not None else {'in': '?'}
